@@ -151,6 +151,11 @@ def gen_wrapper_params():
 
 
 HOST_GROUPSUM = [
+    # guard (F22): a batch whose per-sample size is not the compiled input size is refused; the model's rows all have in_size values
+    "if x.ndim < 2 or int(np.prod(x.shape[1:])) != self._get_input_size():\n"
+    "    raise ValueError(f'expected a batch of samples of {self._get_input_size()} values, got shape {tuple(x.shape)}')",
+    # canonical bytes (F25): identity on the modelled Boolean values
+    "if x.dtype == np.bool_:\n    x = x.view(np.uint8) != 0",
     "batch_size_div_bits = math.ceil(x.shape[0] / self.num_bits)",
     "pad_len = batch_size_div_bits * self.num_bits - x.shape[0]",
     "x = np.concatenate([x, np.zeros((pad_len,) + x.shape[1:], dtype=x.dtype)])",
